@@ -279,7 +279,13 @@ func (u *unmGen) tagFor(t reflect.Type) string {
 			e = &EFilter{E: e, Preds: []Expr{num("1")}}
 		}
 	default:
-		switch r.Intn(6) {
+		switch r.Intn(8) {
+		case 6, 7:
+			// a node-set whose stored order is reverse document order: the conversions use the first node in DOCUMENT order
+			e = &EPath{Steps: []*Stp{{Axis: pick(r, []string{"preceding-sibling", "preceding", "ancestor-or-self", "ancestor"}), Test: NodeTest{Kind: pick(r, []string{"node", "any", "text"})}}}}
+			if r.Chance(1, 3) {
+				e.(*EPath).Steps = append(u.g.Steps(0, 1, 0), e.(*EPath).Steps...)
+			}
 		case 0:
 			e = call("count", &EPath{Steps: u.g.Steps(0, 1, 0)})
 		case 1:
